@@ -97,3 +97,31 @@ package keys_and_cert
 //@     assert(e2 != nil)
 //@   }
 //@ }
+
+// C19: the key-type-specific reader and the generic reader agree on every
+// input the specific one accepts (everything executed from the bodies).
+//@ option C19_X25519Ed25519ReaderAgrees nocontract *
+//@ lemma C19_X25519Ed25519ReaderAgrees(data []byte) {
+//@   k1, r1, e1 := ReadKeysAndCertX25519AndEd25519(data)
+//@   k2, r2, e2 := ReadKeysAndCert(data)
+//@   if e1 == nil {
+//@     assert(e2 == nil)
+//@     assert(len(r1) == len(r2))
+//@     b1, x1 := k1.Bytes()
+//@     b2, x2 := k2.Bytes()
+//@     assert(x1 == nil && x2 == nil && seqeq(b1, b2))
+//@   }
+//@ }
+
+//@ option C19_ElgEd25519ReaderAgrees nocontract *
+//@ lemma C19_ElgEd25519ReaderAgrees(data []byte) {
+//@   k1, r1, e1 := ReadKeysAndCertElgAndEd25519(data)
+//@   k2, r2, e2 := ReadKeysAndCert(data)
+//@   if e1 == nil {
+//@     assert(e2 == nil)
+//@     assert(len(r1) == len(r2))
+//@     b1, x1 := k1.Bytes()
+//@     b2, x2 := k2.Bytes()
+//@     assert(x1 == nil && x2 == nil && seqeq(b1, b2))
+//@   }
+//@ }
